@@ -162,6 +162,7 @@ type responder struct {
 	answer map[string]raft.RPCResponse // tag -> what the handler produced
 	rng    *rand.Rand
 	delay  time.Duration
+	hold   time.Duration // every handler waits this long before it answers
 }
 
 func tagOf(cmd interface{}) string {
@@ -209,6 +210,7 @@ func (r *responder) handle(rpc raft.RPC) {
 	if r.delay > 0 {
 		d = time.Duration(r.rng.Int63n(int64(r.delay)))
 	}
+	d += r.hold
 	r.mu.Unlock()
 	if d > 0 {
 		time.Sleep(d)
@@ -424,11 +426,15 @@ func quietLogger() hclog.Logger {
 	return hclog.New(&hclog.LoggerOptions{Output: io.Discard, Level: hclog.Off})
 }
 
+// pairTimeout is the I/O timeout of the transports newPair creates. The fidelity rounds use a
+// long one so that a loaded machine cannot produce timeouts; the idle-pipeline rounds a short one.
+var pairTimeout = 60 * time.Second
+
 func newPair(t *testing.T, tcp bool, maxPool, inflight int, newTime bool, seed int64, fastPath bool, delay time.Duration) *pair {
 	p := &pair{stop: make(chan struct{})}
 	p.resp = &responder{got: map[string][]recorded{}, answer: map[string]raft.RPCResponse{}, rng: rand.New(rand.NewSource(seed)), delay: delay}
 	mk := func(name string) *raft.NetworkTransport {
-		cfg := &raft.NetworkTransportConfig{Logger: quietLogger(), MaxPool: maxPool, MaxRPCsInFlight: inflight, Timeout: 60 * time.Second, MsgpackUseNewTimeFormat: newTime}
+		cfg := &raft.NetworkTransportConfig{Logger: quietLogger(), MaxPool: maxPool, MaxRPCsInFlight: inflight, Timeout: pairTimeout, MsgpackUseNewTimeFormat: newTime}
 		if tcp {
 			tr, err := raft.NewTCPTransportWithConfig("127.0.0.1:0", nil, cfg)
 			if err != nil {
@@ -618,6 +624,10 @@ func TestC16(t *testing.T) {
 			pipelineRound(col, p, gen{rng: rand.New(rand.NewSource(seed + int64(round*100+50))), ctr: &ctr, mu: &cmu}, 10+rng.Intn(60))
 			done += 30
 		}
+		// ---- a pipeline that sits idle before it is used (short I/O timeout) ----
+		if inflight >= 2 && round%3 == 1 {
+			idlePipelineRound(t, col, tcp, inflight, seed+int64(round), gen{rng: rand.New(rand.NewSource(seed + int64(round*100+60))), ctr: &ctr, mu: &cmu})
+		}
 		// ---- connection faults (pipe transport only) ----
 		if !tcp {
 			g := gen{rng: rand.New(rand.NewSource(seed + int64(round*100+70))), ctr: &ctr, mu: &cmu}
@@ -735,4 +745,76 @@ func pipelineRound(col *table.Collector, p *pair, g gen, n int) {
 		}
 		col.Distinct(tag)
 	}
+}
+
+// idlePipelineRound: the I/O timeout of an exchange runs from the moment the exchange starts. A
+// pipeline is opened and left idle for longer than the timeout before its first request; after
+// that exchange it idles for 0.7 timeouts and sends a request whose handler takes 0.6 timeouts.
+// Both are healthy exchanges. The verdict does not depend on the machine's speed: an error that
+// comes back *sooner* than the timeout after the request was sent cannot be a legitimate timeout
+// (violation); one that comes later is a slow machine (inconclusive counter).
+func idlePipelineRound(t *testing.T, col *table.Collector, tcp bool, inflight int, seed int64, g gen) {
+	const T = 400 * time.Millisecond
+	old := pairTimeout
+	pairTimeout = T
+	p := newPair(t, tcp, 3, inflight, true, seed, false, 0)
+	pairTimeout = old
+	defer p.close()
+	pl, err := p.a.AppendEntriesPipeline("B", p.addrB)
+	if err != nil {
+		col.Cov("inconclusive-idle-pipeline-open", 1)
+		return
+	}
+	defer pl.Close()
+	exchange := func(what string) bool {
+		req := g.appendEntries(false)
+		tag := tagOf(req)
+		start := time.Now()
+		if _, err := pl.AppendEntries(req, new(raft.AppendEntriesResponse)); err != nil {
+			if el := time.Since(start); el < T*8/10 {
+				col.Violate("error-before-timeout", "%s: pipelined AppendEntries %s could not be sent after %v (I/O timeout %v): %v", what, tag, el, T, err)
+			} else {
+				col.Cov("inconclusive-idle-pipeline-slow", 1)
+			}
+			return false
+		}
+		select {
+		case f := <-pl.Consumer():
+			el := time.Since(start)
+			if ferr := f.Error(); ferr != nil {
+				p.resp.mu.Lock()
+				ans, seen := p.resp.answer[tag]
+				p.resp.mu.Unlock()
+				if seen && ans.Error != nil {
+					return true // the handler's own error, faithfully reported
+				}
+				if el < T*8/10 {
+					col.Violate("error-before-timeout", "%s: healthy pipelined AppendEntries %s failed %v after it was sent, I/O timeout %v: %v", what, tag, el, T, ferr)
+				} else {
+					col.Cov("inconclusive-idle-pipeline-slow", 1)
+				}
+				return false
+			}
+			p.resp.mu.Lock()
+			ans := p.resp.answer[tag]
+			p.resp.mu.Unlock()
+			if d := eqResp(f.Response(), nil, ans); d != "" {
+				col.Violate("pipeline-response-mispaired", "%s: %s: %s", what, tag, d)
+			}
+			col.Cov("idle-pipeline-exchanges", 1)
+			return true
+		case <-time.After(30 * time.Second):
+			col.Cov("inconclusive-pipeline-timeout", 1)
+			return false
+		}
+	}
+	time.Sleep(T + T/2)
+	if !exchange("first request on a pipeline that was idle for 1.5 timeouts") {
+		return
+	}
+	time.Sleep(T * 7 / 10)
+	p.resp.mu.Lock()
+	p.resp.hold = T * 6 / 10
+	p.resp.mu.Unlock()
+	exchange("request answered after 0.6 timeouts, sent 0.7 timeouts after the previous exchange")
 }
